@@ -29,8 +29,10 @@ TIERS = {
               # every value within one change of the MAXIMAL instance (all properties set, budget 2)
               dict(roots="all", K=1, KV=1, KU=1, shards=10, frommax=True),
               dict(roots="alias", K=3, KV=0, KU=4, shards=2),
-              # the union holders once more in a process with another hash seed (set / dict iteration orders differ)
-              dict(roots="unionholder", K=1, KV=0, KU=0, shards=4, cfg="default@1"),
+              # the union holders and all deviations once more in a process with another hash seed (set / dict iteration
+              # orders differ) and under python -O (assert statements and __debug__ blocks removed)
+              dict(roots="unionholder", K=1, KV=0, KU=0, shards=4, cfg="default@1@O"),
+              dict(roots="structure", K=0, KV=1, KU=0, shards=4, cfg="default@2@O"),
               # a pristine converter next to a converter the application made lenient, which sees every input first
               dict(roots="all", K=0, KV=1, KU=0, shards=6, cfg="after_lenient")],
     "thorough": [dict(roots="all", K=2, KV=2, KU=3, shards=32),
@@ -41,7 +43,7 @@ TIERS = {
                  # the same universe through differently configured converters (C19's configurations, judged clause by clause)
                  dict(roots="all", K=1, KV=1, KU=2, shards=16, cfg="nodetail"),
                  dict(roots="all", K=1, KV=1, KU=2, shards=16, cfg="second"),
-                 dict(roots="all", K=1, KV=1, KU=2, shards=16, cfg="default@1"),
+                 dict(roots="all", K=1, KV=1, KU=2, shards=16, cfg="default@1@O"),
                  dict(roots="all", K=1, KV=1, KU=2, shards=16, cfg="after_lenient"),
                  dict(roots="unionholder", K=2, KV=0, KU=0, shards=16, cfg="default@2"),
                  dict(roots="unionholder", K=2, KV=0, KU=0, shards=16, cfg="default@3"),
@@ -99,9 +101,12 @@ def one_shard(args):
         sg, sd = common.tlc_stats(gen_text)
     t1 = time.time()
     denv = pkg_env(pkg_path)
-    denv["VERIF_CONV_CFG"], _, hs = conv_cfg.partition("@")       # "<configuration>[@<PYTHONHASHSEED>]"
-    if hs:
-        denv["PYTHONHASHSEED"] = hs
+    parts = conv_cfg.split("@")                                    # "<configuration>[@<PYTHONHASHSEED>[@O]]"
+    denv["VERIF_CONV_CFG"] = parts[0]
+    if len(parts) > 1 and parts[1]:
+        denv["PYTHONHASHSEED"] = parts[1]
+    if len(parts) > 2 and parts[2] == "O":
+        denv["PYTHONOPTIMIZE"] = "1"                                # python -O: assert statements and __debug__ blocks are gone
     p = subprocess.run([common.PY, "-m", "harness.codec_driver", states, trace, model], cwd=common.VERIF,
                        env=denv, stdout=subprocess.PIPE, stderr=subprocess.PIPE)
     if p.returncode != 0:
